@@ -15,7 +15,7 @@ RULE = ('scenario (Hypothesis): 1-3 small programs read through io.read (open st
         'text), printer in {pretty, minify, minify+obfuscate}, source-map arrangement in {none, separate stream, same '
         'object as output, separate factory}, output as open stream or factory, stream names absolute / relative / '
         'relative with directory / missing, sourcemap_normalize_mappings, sourcemap_normalize_paths, '
-        'source_mapping_url in {default, explicit, None}, nodes given as list / tuple / iterator / generator. Streams are recording doubles. Fault points, enumerated '
+        'source_mapping_url in {default, explicit, None}, nodes given as list / tuple / iterator / generator, output stream encoding in {unset, utf-8, utf-16, ascii, latin-1, shift_jis} with programs whose identifiers lie outside those code pages (an inline map that cannot be encoded must fail, not be mislabelled). Streams are recording doubles. Fault points, enumerated '
         'exhaustively per scenario: the scenario is run fault-free to count every factory call, read, parser call, '
         'fragment pulled from the unparser, write and writelines; then re-run once per event with a marker exception '
         'raised at exactly that event. Oracle: fault-free - output text == fresh printer text + trailer; trailer URL '
@@ -246,11 +246,22 @@ def check_scenario(acc, opens, sc):
         if not isinstance(e, ECMASyntaxError):
             fail('syntax_error_not_propagated', got=repr(e))
             return execs, 0
+        try:
+            __import__('calmjs.parse.parsers.es5', fromlist=['x']).parse(sc['programs'][invalid])
+            direct = None
+        except Exception as d:
+            direct = d
+        if type(e) is not type(direct):
+            # the failure of the parser propagates: same exception class as the parser raises itself
+            fail('syntax_error_class_changed', got=type(e).__name__, parser_raises=type(direct).__name__)
+            return execs, 0
         if name is not None and not str(e).endswith(' in %r' % name):
             fail('syntax_error_not_relabelled', message=str(e), name=name)
             return execs, 0
     else:
-        if base['error'] is not None:
+        unencodable = (isinstance(base['error'], UnicodeEncodeError) and sc['map'] == 'same' and sc.get('encoding')
+                       and base['phase'] == 'write')
+        if base['error'] is not None and not unencodable:
             fail('fault_free_run_raises', error=repr(base['error'])[:300])
             return execs, 0
         out_name, map_name, src_names = NAMES[sc['names']]
@@ -283,7 +294,21 @@ def check_scenario(acc, opens, sc):
             m_name = (map_name if map_name is not None else inv) if arr != 'same' else o_name
             want_map['file'] = relativise(m_name, o_name, sc['norm_paths'])
             want_map['sources'] = [relativise(m_name, s, sc['norm_paths']) for s in sources]
-            if arr == 'same':
+            if arr == 'same' and sc.get('encoding'):
+                try:
+                    json.dumps(want_map, sort_keys=True, ensure_ascii=False).encode(sc['encoding'])
+                    encodable = True
+                except UnicodeError:
+                    encodable = False
+                if unencodable and encodable:
+                    fail('fault_free_run_raises', error=repr(base['error'])[:300])
+                    return execs, 0
+                if unencodable:
+                    # the map cannot be expressed in the stream's declared encoding: the failure propagates
+                    acc.label('unencodable_inline_map_failure_propagated')
+            if unencodable:
+                pass
+            elif arr == 'same':
                 prefix = '\n//# sourceMappingURL=data:application/json;base64;charset='
                 if not trailer.startswith(prefix) or ',' not in trailer[len(prefix):]:
                     fail('data_url_trailer_malformed', trailer=trailer[:120])
@@ -321,7 +346,7 @@ def check_scenario(acc, opens, sc):
                             if not fail('url_does_not_designate_map', url=url, output=out_name, map=map_name,
                                         resolved=resolved):
                                 return execs, 0
-            if got_map != want_map:
+            if not unencodable and got_map != want_map:
                 diff = sorted(k for k in set(got_map) | set(want_map) if got_map.get(k) != want_map.get(k))
                 fail('map_differs_from_lower_level_api', keys=diff,
                      got=dict((k, got_map.get(k)) for k in diff), expected=dict((k, want_map.get(k)) for k in diff))
@@ -358,8 +383,10 @@ def replay(case, acc):
 
 
 SMALL = ['a = 1;', 'var x = function(a) { return a + 1; };', 'if (a) { b(); } else c;', 'x = [1,,2]; y = {p: "s"};',
-         'function f(longName, other) { return longName * other; }', '// c\nfoo(bar);\n', '']
-INVALID = ['a = ;', 'function (', '"unterminated']
+         'function f(longName, other) { return longName * other; }', '// c\nfoo(bar);\n', '',
+         u'function g(\u0434\u043b\u0438\u043d\u0430, \u65e5) { return \u0434\u043b\u0438\u043d\u0430 + \u65e5; }',
+         u'var \u00e9t\u00e9 = 1, \u03a9 = \u00e9t\u00e9;']
+INVALID = ['a = ;', 'function (', '"unterminated', 'x = /[a;', 'y = 1; z = /re', 'f(/(/)']
 
 
 @st.composite
@@ -391,8 +418,12 @@ def scenario(draw):
         sc['invalid_index'] = i
         sc['programs'] = sc['programs'][:i + 1]
         sc['read_factory'] = sc['read_factory'][:i + 1]
-    if draw(st.integers(0, 5)) == 0:
-        sc['encoding'] = draw(st.sampled_from(['utf-8', 'utf-16', 'ascii']))
+    if draw(st.integers(0, 3)) == 0:
+        sc['encoding'] = draw(st.sampled_from(['utf-8', 'utf-16', 'ascii', 'latin-1', 'shift_jis']))
+        if sc['invalid_index'] is None and draw(st.booleans()):
+            # steer towards the interesting corner: an inline map holding characters outside the code page
+            sc['programs'][0] = draw(st.sampled_from(SMALL[-2:]))
+            sc['map'] = draw(st.sampled_from(['same', 'same', 'separate']))
     return sc
 
 
@@ -414,9 +445,6 @@ def run_shard(shard):
             if (sc['invalid_index'] == i) == ok:
                 acc.skipped['program_acceptance_not_as_intended'] += 1
                 return
-        if sc.get('encoding') == 'ascii' and any(ord(c) > 127 for p in sc['programs'] for c in p):
-            acc.skipped['non_ascii_program_with_ascii_stream'] += 1
-            return
         execs, nt = check_scenario(acc, opens, sc)
         acc.evaluations += execs
         acc.extra['scenarios'] = acc.extra.get('scenarios', 0) + 1
